@@ -272,6 +272,31 @@ func (e *UMultiCauser) Cause() error {
 	return e.Causes[0]
 }
 
+// UMultiAs: unregistered multi-cause type with an As method: it can be
+// seen as a *ULeafPtr (the standard library asks the node's own As
+// method before it descends into the causes).
+type UMultiAs struct {
+	Msg    string
+	Causes []error
+	Alt    *ULeafPtr
+}
+
+func (e *UMultiAs) Error() string {
+	s := e.Msg
+	for _, c := range e.Causes {
+		s += "; " + c.Error()
+	}
+	return s
+}
+func (e *UMultiAs) Unwrap() []error { return e.Causes }
+func (e *UMultiAs) As(target interface{}) bool {
+	if t, ok := target.(**ULeafPtr); ok {
+		*t = e.Alt
+		return true
+	}
+	return false
+}
+
 // ULeafAs: leaf with an As method: it can be seen as a *ULeafPtr
 // carrying the same message.
 type ULeafAs struct {
